@@ -22,4 +22,25 @@ def run(ctx):
         ctx.compare_stream('normalize-model', d + '/normalize.cases', d + '/normalize.impl', d + '/normalize.model',
                            nontrivial=lambda c, i: len(i) > 10, concrete=False)
     ctx.oracle_stream('normalize-lines-up', d + '/c11.verdicts', d + '/c11.cases')
+    # the theorem C11_restricted predicts the oracle's verdict wherever its two boolean hypotheses hold: evaluate
+    # them (extracted NormProof.flushes_ok / canon_resid, on the dumped tables) on every license-bearing input
+    if ue and ctx.driver('normhyp', d + '/normalize.cases', d + '/normhyp.out', extra=[d, ue]):
+        hyp = [l for l in open(d + '/normhyp.out').read().split('\n') if l]
+        ver = [l for l in open(d + '/c11.verdicts').read().split('\n') if l]
+        cases = open(d + '/c11.cases').read().split('\n')
+        holds = agree = 0
+        for i, v in enumerate(ver):
+            if i < len(hyp) and hyp[i] == '1 1':
+                holds += 1
+                # the token part of the oracle is exactly the theorem's conclusion; the Match part follows from it
+                if v.startswith('OK'):
+                    agree += 1
+                else:
+                    ctx.add_violation('theorem-vs-implementation', None,
+                                      dict(stream='C11_restricted', index=i, case=cases[i][:3000] if i < len(cases) else None,
+                                           verdict=v[:1500], note='both hypotheses of C11_restricted hold for this input (evaluated by the '
+                                           'extracted model on the dumped tables) but the implementation does not satisfy the conclusion'))
+        ctx.cov['streams']['theorem-hypotheses'] = dict(cases=len(ver), nontrivial=holds, mismatches=holds - agree)
+        ctx.assumptions.append('C11_restricted: its hypotheses (flushes_ok, canon_resid) hold on %d of %d license-bearing inputs of this run; '
+                               'the implementation satisfies the conclusion on %d of those' % (holds, len(ver), agree))
     ctx.cov['distinct_nontrivial'] = sum(v['nontrivial'] for v in ctx.cov['streams'].values())
